@@ -30,6 +30,9 @@ Finding of this check on the pinned tree, since repaired in /repo (c2100c2; `fix
       and field:class-in events) and CHAINS (alter_class on the first envelope).  The TTL, the other header field
       among the TSIG variables, IS digested from the wire (mutant tsig-ttl-not-digested = seeded change C11-2).
 
+        The same recorder reads signed messages with dns.Conn.ReadMsg / Transfer.ReadMsg on connections that have written
+        nothing, an unsigned message, or the signed request (right / wrong secret / altered MAC / altered body / unknown
+        key / unsigned): verified = no error and a TSIG present, judged against the request MAC the connection holds.
 TV srv  `tsig record server`: real dns.Servers on in-memory TCP listeners, one per configuration (TsigSecret with the key /
         EMPTY / without the request's key; TsigProvider; provider over a contradicting table; no TSIG configuration at all =
         recorded, not judged) and an in-memory datagram socket (TsigProvider); requests under two keys; 2-5 transactions back to back on every TCP connection, datagrams one by one;
@@ -53,6 +56,7 @@ Mutants (checks/mutants/C11, each must give exit 1):
   tsig-ttl-not-digested         TV (bit events on the 32 TTL bits, field:ttl-1), CHAINS (alter_ttl on the first envelope)
   tsig-class-not-digested       (reverts fix c2100c2) TV (16 class bits, field:class-in), CHAINS (alter_class)
   server-empty-table-no-provider (seeded change C11-8) TV srv (tsig/verify:accepts-invalid:unknown-key:server, "empty table" server)
+  conn-verifies-only-after-signed-write (seeded change C11-14) TV (via conn: accepts-invalid:mac / unknown-key on reads without prior signed write)
   server-error-reply-without-reqmac (seeded change C11-11) TV srv (tsig/verify:accepts-invalid:mac:server-out on BADTIME / BADTRUNC replies)
   server-timersonly-not-reset   (seeded change C11-6 = C15-3) TV srv (tsig/verify:accepts-invalid:mac:server-out on the first
                                 response of a transaction that follows a multi-message answer on the same TCP connection)
